@@ -346,6 +346,90 @@ def gen_case(rng, big=False):
     return case
 
 
+def gen_session(rng):
+    """several objects in one interpreter session: shared and different meshes, with / without the optional arguments,
+    the caller adding ids to the exclusion sets of earlier objects between constructions"""
+    fam = rng.choice(["surface", "surface", "volume"])
+    meshes = [gen_surface(rng) if fam == "surface" else gen_volume(rng) for _ in range(rng.choice([1, 2]))]
+    ops = (["edge_tree", "face_tree", "face_tree", "face_forest", "edge_forest", "kruskal"] if fam == "surface"
+           else ["edge_tree", "cell_tree", "cell_tree", "cell_forest", "edge_forest", "kruskal"])
+    steps = []
+    nobj = 0
+    for _ in range(rng.choice([2, 3, 4, 5])):
+        mid = rng.randrange(len(meshes))
+        mesh = meshes[mid]
+        nv, nf, nc = len(mesh["V"]), len(mesh["F"]), len(mesh["C"])
+        max_eid = len(mesh["E"]) + sum(len(f) for f in mesh["F"]) + sum(6 if len(c) == 4 else 12 for c in mesh["C"]) + 3
+        max_fid = nf + sum(4 if len(c) == 4 else 6 for c in mesh["C"]) + 2
+        what = rng.choice(ops)
+        omit = rng.random() < 0.5
+        dens = rng.choice([0.1, 0.3, 0.6])
+        sub = {"mesh_id": mid, "what": what, "read_order": rng.randrange(12), "calls": rng.choice([1, 1, 2]),
+               "omit_optional": omit, "excl": None}
+        if what.endswith("_tree"):
+            kind = what.split("_")[0]
+            n_el = {"edge": nv, "face": nf, "cell": nc}[kind]
+            sub.update(op="tree", kind=kind, root=rng.randrange(n_el), avoid_boundary=False)
+            if not omit:
+                sub["excl"] = sorted(i for i in range(max_fid if kind == "cell" else max_eid) if rng.random() < dens)
+                sub["avoid_boundary"] = kind == "edge" and rng.random() < 0.3
+        elif what.endswith("_forest"):
+            kind = what.split("_")[0]
+            sub.update(op="forest", kind=kind)
+            if kind == "face" and not omit:
+                sub["excl"] = sorted(i for i in range(max_eid) if rng.random() < dens)
+        else:
+            sub.update(op="kruskal", kind="edge", root=rng.randrange(nv), avoid_boundary=False, weights="length")
+            if not omit:
+                sub["avoid_boundary"] = rng.random() < 0.3
+                sub["weights"] = rng.choice(["one", "length"])
+        steps.append({"do": "build", "case": sub})
+        nobj += 1
+        # the caller adds cuts to the public exclusion set of an earlier object (whatever object that is)
+        for _ in range(rng.choice([0, 1, 1, 2])):
+            steps.append({"do": "mutate", "obj": rng.randrange(nobj),
+                          "ids": sorted(rng.sample(range(max(max_eid, max_fid)), min(max(max_eid, max_fid), rng.choice([1, 3, 8, 20]))))})
+        # ... or re-roots an earlier tree / adds cuts to it and calls compute() again
+        if rng.random() < 0.35:
+            steps.append({"do": "reconf", "obj": rng.randrange(nobj), "root": rng.randrange(1000), "read_order": rng.randrange(12),
+                          "ids": sorted(rng.sample(range(max(max_eid, max_fid)), min(max(max_eid, max_fid), rng.choice([0, 1, 4, 10]))))})
+    return {"op": "session", "kind": "session", "what": "session", "mesh": meshes[0], "meshes": meshes, "steps": steps}
+
+
+def expand_sessions(cases, obs):
+    """every object of a session (and every reconfiguration + recompute of one) becomes an ordinary case
+    (same oracle, same Coq batches)"""
+    out_c, out_o = [], []
+    for c, o in zip(cases, obs):
+        if c.get("op") != "session":
+            out_c.append(c)
+            out_o.append(o)
+            continue
+        rsteps = [st for st in c["steps"] if st["do"] in ("build", "reconf")]
+        if "crash" in o or len(o.get("results", [])) != len(rsteps):
+            out_c.append(dict(c, op="session"))
+            out_o.append(o if "crash" in o else {"op": "session", "kind": "session", "crash": "session returned %d results for %d steps" % (len(o.get("results", [])), len(rsteps))})
+            continue
+        current = []
+        for k, (st, r) in enumerate(zip(rsteps, o["results"])):
+            if st["do"] == "build":
+                cc = dict(st["case"])
+                cc["mesh"] = c["meshes"][cc["mesh_id"]]
+                current.append(cc)
+            else:
+                if r.get("skipped"):
+                    continue
+                cc = dict(current[st["obj"]])
+                cc.update(root=r["update"]["root"], excl=r["update"]["excl"], calls=1, omit_optional=False,
+                          what=cc["what"] + "+reconfigured")
+                current[st["obj"]] = cc
+            cc = dict(cc)
+            cc["session"] = {"meshes": c["meshes"], "steps": c["steps"], "object": k}
+            out_c.append(cc)
+            out_o.append(r)
+    return out_c, out_o
+
+
 def all_roots_cases(rng, count):
     """all roots on small meshes, every kind"""
     out = []
@@ -801,21 +885,61 @@ def shrink_case(case, msg, max_rounds=14):
     return cur
 
 
-def run_one(case, timeout=120):
-    return core.run_impl(DRIVER, {"cases": [case]}, timeout=timeout)["results"][0]
+def run_one(case, timeout=300):
+    if case.get("session"):
+        se = case["session"]
+        r = core.run_impl(DRIVER, {"cases": [{"op": "session", "kind": "session", "meshes": se["meshes"], "steps": se["steps"]}],
+                                   "case_timeout": 120}, timeout=timeout)["results"][0]
+        if "crash" in r:
+            return r
+        return r["results"][se["object"]]
+    return core.run_impl(DRIVER, {"cases": [case], "case_timeout": 120}, timeout=timeout)["results"][0]
 
 
-SLUGS = [("implementation crashed", "crash"), ("reading the public tables twice", "unstable-reads"),
-         ("a root that is not an element was accepted", "bad-root-accepted"), ("valid root rejected", "valid-root-rejected"),
-         ("no starting element given", "drawn-root"), ("parent/children tables have the wrong length", "table-length"),
-         ("the root has a parent", "root-has-parent"), ("reached element", "reached-without-parent"),
-         ("tree edge", "inadmissible-edge"), ("parents of", "cycle-or-dangling"), ("is at depth", "depth-not-hop-distance"),
-         ("outside the root's component", "parent-outside-component"), ("children[", "children-not-inverse"),
-         ("traverse(", "traverse"), ("tree edges for", "edge-count"), ("edge list", "edge-list"),
-         ("trees /", "tree-count"), ("forest.roots", "forest-roots"), ("two roots", "roots-same-component"),
-         ("tree rooted at", "forest-tree"), ("elements not covered", "cover"), ("forest.edges", "forest-edges"),
-         ("forest.traverse", "forest-traverse"), ("an edge is listed twice", "duplicate-edge"),
-         ("the edge list does not span", "not-spanning"), ("edges for", "not-a-forest")]
+def shrink_session(case, msg):
+    """an object that fails inside a session: alone if that still fails, else the session with as few other steps as possible"""
+    alone = {k: v for k, v in case.items() if k != "session"}
+    try:
+        if same_class(msg, oracle(alone, run_one(alone))):
+            return shrink_case(alone, msg)
+    except Exception:
+        pass
+    cur = json.loads(json.dumps(case))
+    # drop everything after the failing step, then the `mutate` steps one at a time (they produce no result of their own,
+    # so the index of the failing step among the result-producing steps is unchanged)
+    def result_step_pos(steps, obj):
+        pos = [i for i, st in enumerate(steps) if st["do"] in ("build", "reconf")]
+        return pos[obj]
+    se = cur["session"]
+    last = result_step_pos(se["steps"], se["object"])
+    tail_kept = [st for st in se["steps"][last + 1:] if st["do"] == "mutate"]
+    for cand_steps in (se["steps"][:last + 1], se["steps"][:last + 1] + tail_kept):
+        cand = json.loads(json.dumps(cur))
+        cand["session"]["steps"] = cand_steps
+        try:
+            if same_class(msg, oracle(cand, run_one(cand))):
+                cur = cand
+                break
+        except Exception:
+            pass
+    changed = True
+    while changed:
+        changed = False
+        steps = cur["session"]["steps"]
+        for i, st in enumerate(steps):
+            if st["do"] != "mutate":
+                continue
+            cand = json.loads(json.dumps(cur))
+            cand["session"]["steps"].pop(i)
+            try:
+                ok = same_class(msg, oracle(cand, run_one(cand)))
+            except Exception:
+                ok = False
+            if ok:
+                cur = cand
+                changed = True
+                break
+    return cur
 
 
 def classify(case, msg):
@@ -835,6 +959,8 @@ def classify(case, msg):
         inp.append("persist-then-move" if case["pre"].get("persist_length") else "preset-length")
     if case.get("calls", 1) > 1:
         inp.append("recompute")
+    if case.get("session"):
+        inp.append("session" + ("-defaults" if case.get("omit_optional") else ""))
     if case["op"] in ("tree", "kruskal"):
         inp.append("root-none" if root is None else ("root-negative" if root < 0 else "root"))
     if case["op"] == "kruskal":
@@ -846,7 +972,8 @@ def classify(case, msg):
 # ====================================================================== the check
 def run(ctx):
     quick = ctx.tier == "quick"
-    n_rand = 520 if quick else 17000
+    n_rand = 400 if quick else 14000
+    n_sessions = 45 if quick else 1200
     n_roots = 180 if quick else 3000
     ctx.rule = ("meshes built through RawMeshData: polylines (random graphs incl. empty, paths, cycles, two components, "
                 "isolated vertices), oriented manifold surfaces (tri/quad/mixed grids, tetrahedron, octahedron, cube, tori, "
@@ -859,7 +986,10 @@ def run(ctx):
                 "Every public table/accessor of trees and forests is read twice in two case-chosen orders and each tree is "
                 "re-inspected after the forest-level reads (answers must not change); 12-45% of the cases are multi-step: "
                 "attributes.edge_length computed persistently before the vertices move to their final position, or a "
-                "pre-existing 'length' edge attribute with arbitrary values")
+                "pre-existing 'length' edge attribute with arbitrary values; sessions: 2-5 tree/forest objects built in one "
+                "interpreter on shared / different meshes, half of them without their optional arguments, the caller adding "
+                "ids to the exclusion sets of earlier objects in between - each object is checked against the exclusions it "
+                "was given and re-inspected at the end")
     ctx.assumptions += [
         "elements are 0..n-1; the model receives the neighbour slots of every element as the implementation's own public "
         "connectivity queries return them (order included); the oracle rebuilds the adjacency from mesh.edges/faces/cells",
@@ -882,6 +1012,7 @@ def run(ctx):
     big = not quick
     cases += [gen_case(ctx.rng, big and k % 10 == 0) for k in range(n_rand)]
     cases += all_roots_cases(ctx.rng, n_roots)
+    cases += [gen_session(ctx.rng) for _ in range(n_sessions)]
     if not quick:
         # support only (bounded): every graph on <= 4 vertices as a polyline, every root
         for nvx in range(1, 5):
@@ -927,12 +1058,18 @@ def run(ctx):
                    % (len(replaced), len(cases)), "harness", len(replaced) * 50 <= len(cases),
                    "; ".join("%d: %s" % (i, f[:80]) for i, f in replaced[:5]))
 
+    n_sess = sum(1 for c in cases if c.get("op") == "session")
+    cases, obs = expand_sessions(cases, obs)
+    ctx.count("sessions (several objects in one interpreter, mutated exclusion sets in between)", n_sess)
+
     # ---- bookkeeping + oracle (search for a concrete failing input)
     fails = []
     for idx, (c, o) in enumerate(zip(cases, obs)):
         ctx.count("op " + c["what"])
         ctx.count("mesh " + c["mesh"]["type"])
         ctx.count("shape " + c["mesh"].get("shape", "?"))
+        if c.get("session"):
+            ctx.count("object built inside a session" + (" without its optional arguments" if c.get("omit_optional") else ""))
         if c.get("excl") is not None:
             ctx.count("with exclusion set")
         if c.get("avoid_boundary"):
@@ -962,7 +1099,8 @@ def run(ctx):
         ctx.count("compute() called %d time(s)" % c.get("calls", 1))
         ctx.case_seen([c["mesh"]["V"], c["mesh"]["E"], c["mesh"]["F"], c["mesh"]["C"], c["op"], c["kind"], c.get("root"),
                        c.get("excl"), c.get("avoid_boundary"), c.get("weights") if isinstance(c.get("weights"), str) else "custom",
-                       c.get("pre"), c["mesh"].get("pre_V"), c.get("read_order"), c.get("calls", 1)],
+                       c.get("pre"), c["mesh"].get("pre_V"), c.get("read_order"), c.get("calls", 1), c.get("omit_optional"),
+                       json.dumps(c["session"]["steps"]) if c.get("session") else None],
                       nontrivial=nontriv,
                       sample={"op": c["what"], "mesh": c["mesh"]["shape"], "root": c.get("root"),
                               "n": o.get("n"), "edges": o.get("edges", [])[:8]} if nontriv else None)
@@ -1003,7 +1141,7 @@ def run(ctx):
             continue
         reported.add(site)
 
-        small = shrink_case(case, msg)
+        small = case if case.get("op") == "session" else (shrink_session(case, msg) if case.get("session") else shrink_case(case, msg))
         o2 = run_one(small)
         m2 = oracle(small, o2) or msg
         ctx.violation("%s on %s: %s" % (case["what"], case["mesh"]["shape"], m2),
